@@ -174,6 +174,17 @@ func (v *vfE3Node) ConfLine() string {
 		vfE3Bool(o.TLSRequired == TLSRequired), strings.Join(vfE3CfgNames(o), ","))
 }
 
+// vfE3NoteLast records the stream about to be served (synchronously, outside the buffered ops file): if
+// the process dies while serving it (a panic in a goroutine nobody recovers) the check still has the
+// exact input.
+func vfE3NoteLast(conf string, stream []byte) {
+	dir := os.Getenv("VERIF_OUT")
+	if dir == "" {
+		return
+	}
+	os.WriteFile(dir+"/last.ops", []byte("reset\nio "+conf+" "+vfHex(stream)+"\n"), 0o644)
+}
+
 // ---------------------------------------------------------------- in-memory connection
 
 type vfE3Addr struct{ s string }
